@@ -90,10 +90,9 @@ def file_cache(ctx, model_ok, tmp):
         n_seq = 24 if ctx.quick() else 400
         for s in range(n_seq):
             mode = ["files", "datasets", "size", "age"][s % 4]
-            thr = {
-                "files": rng.choice([0, 1, 2, 3, 5]), "datasets": rng.choice([0, 1, 2, 3]),
-                "size": rng.choice([0, 15, 40, 100, 250]), "age": rng.choice([0, 60, 3600, 90000]),
-            }[mode]
+            # thresholds are cycled, not drawn, so that every tier covers the boundary values (0 first)
+            grid = {"files": [0, 1, 2, 3, 5], "datasets": [0, 1, 2, 3], "size": [0, 15, 40, 100, 250], "age": [0, 60, 3600, 90000]}[mode]
+            thr = grid[(s // 4) % len(grid)]
             root = os.path.join(tmp, f"cache{s}")
             cfg = DatastoreCacheManagerConfig(
                 {"cached": {"root": root, "expiry": {"mode": mode, "threshold": thr}, "default": True, "cacheable": {"irrelevant": False}}}
@@ -264,6 +263,11 @@ def registry_caches(ctx, tmp):
             except Exception as e:
                 out[("query_datasets", d.name)] = type(e).__name__
         out[("collections",)] = sorted(bt.registry.queryCollections())
+        for c in colls:
+            try:
+                out[("flatten", c)] = list(bt.registry.queryCollections(c, flattenChains=True))
+            except Exception as e:
+                out[("flatten", c)] = type(e).__name__
         return out
 
     for h in range(n_hist):
@@ -275,7 +279,7 @@ def registry_caches(ctx, tmp):
         a.registry.registerCollection(tag, CollectionType.TAGGED)
         a.registry.registerCollection(chain, CollectionType.CHAINED)
         a.registry.setCollectionChain(chain, [tag] + runs)
-        colls_choices = [[runs[0]], runs, [tag], [chain], [chain, runs[1]]]
+        colls_choices = [[runs[0]], runs, [tag], [chain], [chain], [chain, runs[1]]]
         ops = []
         live = []
         with a.registry.caching_context():
@@ -293,7 +297,7 @@ def registry_caches(ctx, tmp):
                          {"kind": "regcache", "ops": ops, "collections": colls, "differs": [str(k) for k in diff]})
                     break
                 r = rng.random()
-                if r < 0.55 or not live:
+                if (r < 0.5 or not live) and r < 0.9:
                     d, k, rn = rng.choice(dts), rng.choice((1, 2, 3)), rng.choice(runs)
                     try:
                         ref = a.put({"v": step}, d, instrument="I", detector=k, run=rn)
@@ -301,17 +305,24 @@ def registry_caches(ctx, tmp):
                         ops.append(("put", d.name, k, rn))
                     except Exception as e:
                         ops.append(("put-refused", d.name, k, rn, type(e).__name__))
-                elif r < 0.8:
+                elif r < 0.75 and live:
                     ref = rng.choice(live)
                     try:
                         a.registry.associate(tag, [ref])
                         ops.append(("associate", ref.datasetType.name, ref.dataId["detector"]))
                     except Exception as e:
                         ops.append(("associate-refused", type(e).__name__))
-                else:
+                elif r < 0.88 and live:
                     ref = live.pop(rng.randrange(len(live)))
                     a.pruneDatasets([ref], disassociate=True, unstore=True, purge=True)
                     ops.append(("purge", ref.datasetType.name, ref.dataId["detector"], ref.run))
+                else:
+                    # the client redefines the chain it has been reading through (allowed inside a caching context)
+                    members = [tag] + runs
+                    rng.shuffle(members)
+                    members = members[: rng.randint(0, len(members))]
+                    a.registry.setCollectionChain(chain, members)
+                    ops.append(("setCollectionChain", [m.split("_")[0] for m in members]))
             else:
                 colls = rng.choice(colls_choices)
                 pa, pb = probes(a, colls), probes(b, colls)
